@@ -781,3 +781,43 @@ Qed.
 Lemma shape_mask_if_reference_point_inside (s : shape ROps) (t : rtri) :
   nondegenerate t -> inside t (shape_ref s) -> shape_mask s t = true.
 Proof. intros D H. apply shape_mask_if_reference_inside. apply point_mask_iff_inside; assumption. Qed.
+
+(* ------------------------------------------------------------------ more consequences *)
+Lemma tri_perm_corner (s t : rtri) (p : rpt) : tri_perm s t -> is_corner p t -> is_corner p s.
+Proof.
+  destruct t as [[a b] c]. unfold tri_perm, is_corner, v0, v1, v2. cbn [fst snd].
+  intros [H|[H|[H|[H|[H|H]]]]]; subst s; cbn [fst snd]; intuition.
+Qed.
+
+Lemma c_vertices_preserved (h : T ROps) (S : cs ROps) (t : rtri) (p : rpt) :
+  In t (c_triangles h S) -> is_corner p t ->
+  exists c, In c (c_triangles h (c_up_sample h S)) /\ is_corner p c.
+Proof.
+  intros Ht Hp. destruct (vertices_preserved _ t p Ht Hp) as [u [Hu Hpu]].
+  destruct (c_up_sample_exact h S) as [_ H2]. destruct (H2 u Hu) as [s [Hs Hperm]].
+  exists s. split; auto. apply (tri_perm_corner s u p Hperm Hpu).
+Qed.
+
+(* the executable specifications used by the correspondence checker, at the reals, are the Prop-level ones *)
+Lemma spec_children_is_subdivision (t : rtri) : same_triangle_set (@spec_children ROps t) (subdivision t).
+Proof.
+  destruct t as [[[x0 y0] [x1 y1]] [x2 y2]]. unfold same_triangle_set, spec_children, subdivision, lin2. rsimp. split.
+  - intros s [H|[H|[H|[H|[]]]]]; subst s.
+    + eexists. split; [left; reflexivity|]. tri_perm_solve.
+    + eexists. split; [right; left; reflexivity|]. tri_perm_solve.
+    + eexists. split; [right; right; left; reflexivity|]. tri_perm_solve.
+    + eexists. split; [right; right; right; left; reflexivity|]. tri_perm_solve.
+  - intros s [H|[H|[H|[H|[]]]]]; subst s.
+    + eexists. split; [left; reflexivity|]. tri_perm_solve.
+    + eexists. split; [right; left; reflexivity|]. tri_perm_solve.
+    + eexists. split; [right; right; left; reflexivity|]. tri_perm_solve.
+    + eexists. split; [right; right; right; left; reflexivity|]. tri_perm_solve.
+Qed.
+
+Lemma spec_neighbours_are_neighbours (t n : rtri) : In n (@spec_neighbours ROps t) <-> self_or_neighbour t n.
+Proof.
+  rewrite self_or_neighbour_iff.
+  destruct t as [[[x0 y0] [x1 y1]] [x2 y2]]. unfold spec_neighbours, reflect_through_mid. rsimp. cbn [In].
+  assert (E : forall a b c : R, 2 * (1 / 2 * (a + b)) - c = a + b - c) by (intros; field).
+  rewrite !E, (Rplus_comm x2 x0), (Rplus_comm y2 y0). intuition.
+Qed.
